@@ -312,11 +312,26 @@ where
     for line in output.split_at_newline() {
         // a line that resembles a divider, but does not carry the salt of this
         // execution, was printed by a test and is output like any other
-        let divider = if line
+        let divider = if let Some(position) = line
             .windows(salted_prefix.len())
-            .any(|window| window == &salted_prefix[..])
+            .position(|window| window == &salted_prefix[..])
         {
-            parse_divider_bytes(line).map_err(|err| ExecutionError::failed(expected_index, err))?
+            // what precedes the divider on the line is output, also if it
+            // resembles a divider itself
+            match parse_divider_bytes(&line[position..])
+                .map_err(|err| ExecutionError::failed(expected_index, err))?
+            {
+                DividerSearch::Found {
+                    prefix: _,
+                    output_index,
+                    exit_code,
+                } => DividerSearch::Found {
+                    prefix: (position > 0).then(|| line[..position].to_vec()),
+                    output_index,
+                    exit_code,
+                },
+                DividerSearch::NotFound => DividerSearch::NotFound,
+            }
         } else {
             DividerSearch::NotFound
         };
